@@ -116,3 +116,59 @@ func c14run() {
 }
 
 func HarnessC14Env() { c14run() }
+
+// ---- aliases on fields whose primary name is implicit (from the Go field name, or from the
+// `dials` tag for a source-specific alias)
+
+type c14nested2 struct {
+	ListenAddr string `dialsalias:"addr"`
+}
+
+type c14cfg2 struct {
+	MaxConns int8       `dialsalias:"connection_limit"`
+	LogLevel string     `dials:"log_level" dialsenvalias:"VERBOSITY"`
+	Server   c14nested2 `dials:"server"`
+}
+
+func HarnessC14EnvImplicit() {
+	vars := []string{"MAX_CONNS", "CONNECTION_LIMIT", "LOG_LEVEL", "VERBOSITY", "SERVER_LISTEN_ADDR", "SERVER_ADDR"}
+	clear := func() {
+		for _, v := range vars {
+			zzverif.Unsetenv(v)
+		}
+	}
+	clear()
+	defer clear()
+	pConns := c14set("conns", c14leaf{"MAX_CONNS", "CONNECTION_LIMIT", "MaxConns"}, "4")
+	pLog := c14set("log", c14leaf{"LOG_LEVEL", "VERBOSITY", "LogLevel"}, "dbg")
+	pAddr := c14set("addr", c14leaf{"SERVER_LISTEN_ADDR", "SERVER_ADDR", "ListenAddr"}, ":80")
+	t := dials.NewType(ptrify.Pointerify(reflect.TypeOf(c14cfg2{}), reflect.Value{}))
+	val, err := (&Source{}).Value(context.Background(), t)
+	anyBoth := pConns == 3 || pLog == 3 || pAddr == 3
+	if err != nil {
+		zzverif.Assert(anyBoth, "C14 the environment source failed although no field was given under both its names")
+		msg := err.Error()
+		named := (pConns == 3 && strings.Contains(msg, "MaxConns")) || (pLog == 3 && strings.Contains(msg, "LogLevel")) || (pAddr == 3 && strings.Contains(msg, "ListenAddr"))
+		if !zzverif.Symbolic() {
+			zzverif.Assert(named, "C14 the both-names error does not name the field: "+msg)
+		}
+		zzverif.Reached("c14-implicit-both-error")
+		return
+	}
+	zzverif.Assert(!anyBoth, "C14 a field (with an implicit primary name) supplied under both its primary and alias name did not produce an error")
+	f := func(n string) reflect.Value { return val.FieldByName(n) }
+	zzverif.Assert(f("MaxConns").IsNil() == (pConns == 0), "C14 MAX_CONNS/CONNECTION_LIMIT (alias without a dials tag): field set although neither name was supplied, or unset although one was")
+	if pConns != 0 && !f("MaxConns").IsNil() {
+		zzverif.Assert(f("MaxConns").Elem().Int() == 4, "C14 MAX_CONNS/CONNECTION_LIMIT: wrong value")
+	}
+	zzverif.Assert(f("LogLevel").IsNil() == (pLog == 0), "C14 LOG_LEVEL/VERBOSITY (source-specific alias, generic primary tag): field set/unset wrongly")
+	if pLog != 0 && !f("LogLevel").IsNil() {
+		zzverif.Assert(f("LogLevel").Elem().String() == "dbg", "C14 LOG_LEVEL/VERBOSITY: wrong value")
+	}
+	zzverif.Assert(f("Server").IsNil() == (pAddr == 0), "C14 SERVER_LISTEN_ADDR/SERVER_ADDR: nested struct set/unset wrongly")
+	if pAddr != 0 && !f("Server").IsNil() {
+		a := f("Server").Elem().FieldByName("ListenAddr")
+		zzverif.Assert(!a.IsNil() && a.Elem().String() == ":80", "C14 SERVER_LISTEN_ADDR/SERVER_ADDR: wrong value")
+	}
+	zzverif.Reached("c14-implicit-end")
+}
